@@ -217,6 +217,8 @@ def run(chk):
             chk.broken("correspondence harness TestVerifC04 no longer runs against /repo (%s)" % kind, o)
     base = [c for c in rows if c["mut"] == ""]
     cases = [c for c in rows if c["mut"] != ""]
+    # report the gravest steering first: a rewrite outside the transcript that changes the certificate the client is shown
+    cases.sort(key=lambda c: 0 if c.get("cpeer_cert", "") != c.get("base_peer_cert", "") and c["cres"] == "ok" else 1)
     for b in base:
         if b["cres"] != "ok" or b["sres"] != "ok" or b["creads"] == 0 or b["sreads"] == 0:
             chk.broken("undisturbed handshake of variant %s does not complete (schedule %r)" % (
